@@ -24,28 +24,27 @@ import NmVerif.Index.NormalizeAxis
     shapeAtleastNd shape nd          : Shape
     atleastNdView  src nd            : Option IxView
 
-  `none` = the C++ returns Nothing.  Modelled domain of `shapeReshape`: every target entry is `-1` or `≥ 0`
-  (other negative entries are multiplied as wrapped `size_t` values by the C++; that is C15's domain and NOT mirrored:
-  the model treats them like `0`), and `dst_numel ≠ 0` whenever a `-1` is present (`src_numel % 0` is UB in the C++;
-  Lean's `x % 0 = x` is not a mirror of it).  `shapeExpandDims`: `none` also stands for the UB of unwrapping an empty
-  `normalize_axis` result / reading past `shape` when axes repeat.
+  `none` = the C++ returns Nothing.  `shapeReshape` mirrors the code for every `Int` target entry that fits the
+  machine types (a `0` or a negative entry other than `-1` gives Nothing, index/reshape.hpp:126-132).
+  `shapeExpandDims`: `none` also stands for the UB of unwrapping an empty `normalize_axis` result / reading past
+  `shape` when axes repeat (C15's domain).
 
   Core Lean only.
 -/
 namespace NmVerif
 
-/-- `index::count_negative_reshape`: `dst_numel` starts at 0 and becomes 1 only when the loop body runs,
-    so an EMPTY target shape has `dst_numel = 0` (quirk, see Props.C03.reshape_to_rank0_counterexample). -/
+/-- `index::count_negative_reshape`: number of `-1` entries and the product of the others (`dst_numel` starts at 1,
+    so an empty target — a rank-0 result — has `dst_numel = 1`). -/
 def countNegativeReshape (dst : List Int) : Nat × Nat :=
-  match dst with
-  | [] => (0, 0)
-  | _ => dst.foldl (fun (acc : Nat × Nat) d => if d = -1 then (acc.1 + 1, acc.2) else (acc.1, acc.2 * d.toNat)) (0, 1)
+  dst.foldl (fun (acc : Nat × Nat) d => if d = -1 then (acc.1 + 1, acc.2) else (acc.1, acc.2 * d.toNat)) (0, 1)
 
-/-- `index::shape_reshape(src_shape, dst_shape)` (run-time branch, reshape.hpp:99-140). -/
+/-- `index::shape_reshape(src_shape, dst_shape)` (run-time branch, reshape.hpp:96-145). -/
 def shapeReshape (src : Shape) (dst : List Int) : Option Shape :=
   let c := (countNegativeReshape dst).1
   let dstNumel := (countNegativeReshape dst).2
   if c > 1 then none else
+  -- zero or negative (other than -1) extent is invalid
+  if dst.any (fun d => d != -1 && d ≤ 0) then none else
   let srcNumel := prod src
   if c = 0 ∧ srcNumel ≠ dstNumel then none
   else if srcNumel % dstNumel ≠ 0 then none
